@@ -41,6 +41,17 @@
 //!                  bmp-in unit started by a reload is a new source: it is named k<8*g + k> where g = how many bmp-in units were
 //!                  started before that one. `C k` while the unit of router k does not run is skipped.
 //!   JL u           GET the router list of ingress unit u (0: /routers/, 1: /routers2/): r:<routers listed>, r:- when nothing answers there
+//!   BO k           (BGP cases: a case with one of the B? ops has a `bgp-tcp-in` unit `bgp-in` that the RIB units source too.) A BGP speaker
+//!                  with source address 127.0.0.<30+k> (k = 0..4; AS 65100+k) connects to the unit, sends OPEN, and - when the unit answers
+//!                  with its OPEN - KEEPALIVE, and waits for the unit's KEEPALIVE: o:<my_asn variant>,<hold time> as read from the unit's
+//!                  OPEN; o:- when the unit closes the connection without an OPEN (no `[peers."127.0.0.<30+k>"]` entry). Skipped (-) while
+//!                  a connection of that address is open. Start-up configuration: my_asn variant 0, peers 0 and 1 with entry variant 1.
+//!   BA k a ps ws   the speaker of address k sends one UPDATE: IPv4 unicast prefixes ps announced with attribute set a, ws withdrawn
+//!   BZ k [1]       the speaker closes the connection (with 1: sends NOTIFICATION Cease first)
+//!   BP k v         the operator edits the configuration: `[units.bgp-in.peers."127.0.0.<30+k>"]` taken out (0) / there with hold_time
+//!                  90 (1) / 120 (2). BS a: `my_asn` = 64512 (0) / 64513 (1). Both take effect with the next H / L (`listen` never changes).
+//!   BM             the bgp unit's counters: n:<connection_accepted>,<connection_lost>,<disconnect>
+//!   H / L          in a BGP case print x:<addresses whose connection the unit closed during the reload>
 //! Script variants (rib-in-pre is what the RIB units fetch when they are started): 1..8 `rib-in-pre` rejects the routes of
 //! prefix 10.<s>.0.0/16 (prefix s of the R ops; the peers of these cases have no 4-octet-AS capability, so the AS-path
 //! predicates see nothing in their routes); 9 a script without a rib-in-pre filter.
@@ -206,9 +217,94 @@ pub struct World {
     bgp_port: u16,
     wedged: bool,                    // a request was never answered: Manager::terminate is not tried at the end of the case
     hold_next: bool,                 // op FH: the next reload happens while the compiled script's mutex is held
+    bgp: Option<BgpSide>,            // the case has a bgp-tcp-in unit `bgp-in` (cases with B? ops)
 }
 
-fn config_text(bmp_port: u16, http_port: u16, variant: usize, d: &Desired, bgp_port: u16, bmp2_port: Option<u16>) -> String {
+pub const BGP_UNIT: &str = "bgp-in";
+const BGP_ASNS: [u32; 2] = [64512, 64513];
+const BGP_HOLDS: [u16; 3] = [0, 90, 120];
+
+/// what the configuration says about the bgp unit (`listen` never changes)
+#[derive(Clone, Copy, PartialEq, Debug)]
+struct BgpCfg { asn: usize, peers: [usize; 5] }   // per address 0..4: 0 no entry, v: entry with hold_time BGP_HOLDS[v]
+
+struct BgpConn { stream: TcpStream, buf: Vec<u8>, notified: bool }
+
+struct BgpSide {
+    port: u16,
+    desired: BgpCfg,                 // the file as the operator left it
+    loaded: BgpCfg,                  // the file as it was at the latest load
+    conns: BTreeMap<u32, BgpConn>,   // address -> the open connection of that address
+    accepted: u64,                   // TCP connections made to the unit's listener
+    updates: u64,                    // updates the unit's gate must have sent: one per UPDATE written, one per ended session
+    seen: BTreeMap<u32, Vec<u32>>,   // address -> the ingress ids the RIB has shown for it, by first appearance
+}
+
+fn bgp_frame(ty: u8, body: &[u8]) -> Vec<u8> {
+    let mut v = vec![0xffu8; 16];
+    v.extend_from_slice(&((19 + body.len()) as u16).to_be_bytes());
+    v.push(ty);
+    v.extend_from_slice(body);
+    v
+}
+
+/// OPEN: version 4, AS_TRANS-free 2-octet AS, hold time 90, BGP id 10.0.0.<9+k>; capabilities MP IPv4 unicast + 4-octet AS
+fn bgp_open(asn: u32, k: u32) -> Vec<u8> {
+    let a2 = (asn as u16).to_be_bytes();
+    let a4 = asn.to_be_bytes();
+    bgp_frame(1, &[4, a2[0], a2[1], 0, 90, 10, 0, 0, 9 + k as u8, 14, 2, 12, 1, 4, 0, 1, 0, 1, 65, 4, a4[0], a4[1], a4[2], a4[3]])
+}
+
+impl BgpConn {
+    /// takes one whole BGP message out of what was read so far
+    fn take_frame(&mut self) -> Option<(u8, Vec<u8>)> {
+        if self.buf.len() < 19 { return None; }
+        let len = u16::from_be_bytes([self.buf[16], self.buf[17]]) as usize;
+        if len < 19 || self.buf.len() < len { return None; }
+        let fr: Vec<u8> = self.buf.drain(..len).collect();
+        if fr[18] == 3 { self.notified = true; }
+        Some((fr[18], fr[19..].to_vec()))
+    }
+
+    /// reads until a message of type `ty` has arrived: Some(body), or None when the other side closed first (or nothing came in time)
+    fn await_frame(&mut self, ty: u8, ms: u64) -> Result<Vec<u8>, &'static str> {
+        let t0 = Instant::now();
+        let _ = self.stream.set_read_timeout(Some(Duration::from_millis(50)));
+        loop {
+            while let Some((t, body)) = self.take_frame() {
+                if t == ty { return Ok(body); }
+            }
+            let mut chunk = [0u8; 4096];
+            match self.stream.read(&mut chunk) {
+                Ok(0) => return Err("closed"),
+                Ok(n) => self.buf.extend_from_slice(&chunk[..n]),
+                Err(e) if matches!(e.kind(), std::io::ErrorKind::WouldBlock | std::io::ErrorKind::TimedOut) => {}
+                Err(_) => return Err("closed"),
+            }
+            if t0.elapsed() > Duration::from_millis(ms) { return Err("silent"); }
+        }
+    }
+
+    /// takes in whatever has arrived; true when the other side has closed the connection
+    fn closed(&mut self) -> bool {
+        let _ = self.stream.set_nonblocking(true);
+        let mut dead = false;
+        loop {
+            let mut chunk = [0u8; 4096];
+            match self.stream.read(&mut chunk) {
+                Ok(0) => { dead = true; break; }
+                Ok(n) => self.buf.extend_from_slice(&chunk[..n]),
+                Err(e) if e.kind() == std::io::ErrorKind::WouldBlock => break,
+                Err(_) => { dead = true; break; }
+            }
+        }
+        let _ = self.stream.set_nonblocking(false);
+        while self.take_frame().is_some() {}
+        dead
+    }
+}
+
+fn config_text(bmp_port: u16, http_port: u16, variant: usize, d: &Desired, bgp_port: u16, bmp2_port: Option<u16>, bgp: Option<(u16, BgpCfg)>) -> String {
     let tpl = TEMPLATES[variant];
     // debugging aid: VH_E2E_LOG=<level> makes rotonda log at that level to stderr (World::start then also initialises its logger)
     let lvl = std::env::var("VH_E2E_LOG").unwrap_or_else(|_| "error".into());
@@ -217,6 +313,7 @@ fn config_text(bmp_port: u16, http_port: u16, variant: usize, d: &Desired, bgp_p
     let mut ingresses: Vec<&str> = vec![];
     if d.ingress { ingresses.push(UNIT); }
     if bmp2_port.is_some() { ingresses.push(UNIT2); }
+    if bgp.is_some() { ingresses.push(BGP_UNIT); }
     let sources = ingresses.iter().map(|u| format!("\"{u}\"")).collect::<Vec<_>>().join(", ");
     let rib2 = match d.rib2 {
         1 => format!("\n[units.rib2]\ntype = \"rib\"\nsources = [{sources}]\nhttp_api_path = \"/rib2/\"\n\n[targets.null2]\ntype = \"null-out\"\nsources = [\"rib2\"]\n"),
@@ -235,9 +332,21 @@ fn config_text(bmp_port: u16, http_port: u16, variant: usize, d: &Desired, bgp_p
         Some(p) => format!("[units.{UNIT2}]\ntype = \"bmp-tcp-in\"\nlisten = \"127.0.0.1:{p}\"\nhttp_api_path = \"{}\"\nrouter_id_template = \"{tpl}\"\n\n", LISTS[1]),
         None => String::new(),
     };
+    let bgp_in = match bgp {
+        Some((port, c)) => {
+            let mut t = format!("[units.{BGP_UNIT}]\ntype = \"bgp-tcp-in\"\nlisten = \"127.0.0.1:{port}\"\nmy_asn = {}\nmy_bgp_id = [1, 2, 3, 4]\n\n", BGP_ASNS[c.asn]);
+            for (k, v) in c.peers.iter().enumerate() {
+                if *v != 0 {
+                    t += &format!("[units.{BGP_UNIT}.peers.\"127.0.0.{}\"]\nname = \"p{k}\"\nremote_asn = []\nhold_time = {}\n\n", 30 + k, BGP_HOLDS[*v]);
+                }
+            }
+            t
+        }
+        None => String::new(),
+    };
     format!(
         "http_listen = [\"127.0.0.1:{http_port}\"]\nlog_level = \"{lvl}\"\nlog_target = \"stderr\"\n{script}\n\
-         {bmp1}{bmp2}\
+         {bmp1}{bmp2}{bgp_in}\
          [units.rib]\ntype = \"rib\"\nsources = [{sources}]\n{shorthand}\n\
          [targets.null]\ntype = \"null-out\"\nsources = [\"rib\"]\n{rib2}"
     )
@@ -273,10 +382,11 @@ fn hold_script<T: Send + 'static>(c: Option<std::sync::Arc<std::sync::Mutex<T>>>
 
 impl World {
     /// What src/main.rs does: load the config through the manager, start the HTTP server, spawn the units.
-    pub fn start(files: bool, script: u32) -> World { World::start_with(files, script, 0, false, false) }
+    pub fn start(files: bool, script: u32) -> World { World::start_with(files, script, 0, false, false, false) }
 
-    fn start_with(files: bool, script: u32, vribs: u32, two: bool, hold: bool) -> World {
-        let ports = pick_ports(6);
+    fn start_with(files: bool, script: u32, vribs: u32, two: bool, hold: bool, bgp: bool) -> World {
+        let ports = pick_ports(7);
+        let bgp_cfg = BgpCfg { asn: 0, peers: [1, 1, 0, 0, 0] };
         if std::env::var("VH_E2E_LOG").is_ok() { let _ = Config::init(); }
         let desired = Desired { script, file_no: 0, rib2: 0, vribs, ingress: true };
         let dir = if files {
@@ -289,7 +399,7 @@ impl World {
         let mgr = {
             let _g = rt.enter();
             let mut mgr = Manager::new();
-            let file = config_file(&dir, config_text(ports[0], ports[1], 0, &desired, ports[4], if two { Some(ports[5]) } else { None }));
+            let file = config_file(&dir, config_text(ports[0], ports[1], 0, &desired, ports[4], if two { Some(ports[5]) } else { None }, if bgp { Some((ports[6], bgp_cfg)) } else { None }));
             let (_src, mut config) = match Config::from_config_file(file, &mut mgr) { Ok(x) => x, Err(_) => panic!("config rejected") };
             if config.http.run(mgr.metrics(), mgr.http_resources()).is_err() { panic!("http server did not start"); }
             let holder = if hold { hold_script(mgr.verif_roto_compiled(), HOLD_MS) } else { None };
@@ -301,15 +411,18 @@ impl World {
             rt: Some(rt), mgr, bmp_port: ports[0], http_port: ports[1], spare_ports: ports[2..4].to_vec(),
             conns: BTreeMap::new(), accepted: [0; 2], lost: [0; 2], binds: [1; 2], two, bmp2_port: ports[5], running: [true, two], gen: 0, reloaded: false, variant: 0, ids_of: BTreeMap::new(), rids: BTreeMap::new(), notes: vec![], stalled: None,
             dir, desired, bgp_port: ports[4], wedged: false, hold_next: false,
+            bgp: if bgp { Some(BgpSide { port: ports[6], desired: bgp_cfg, loaded: bgp_cfg, conns: BTreeMap::new(), accepted: 0, updates: 0, seen: BTreeMap::new() }) } else { None },
         };
         // the pipeline is up when the bmp-tcp-in unit has bound its listener (units start together, after their waitpoint)
         w.wait_metrics("listener bound", |t| metric_sum(t, "bmp_tcp_in_listener_bound_count_total", &[("component", UNIT)]) == Some(1));
         if two { w.wait_metrics("second listener bound", |t| metric_sum(t, "bmp_tcp_in_listener_bound_count_total", &[("component", UNIT2)]) == Some(1)); }
+        if bgp { w.wait_metrics("bgp listener bound", |t| metric_sum(t, "bgp_tcp_in_listener_bound_count_total", &[("component", BGP_UNIT)]) == Some(1)); }
         w
     }
 
     pub fn stop(mut self) {
         self.conns.clear();
+        if let Some(b) = self.bgp.as_mut() { b.conns.clear(); }
         // Manager::terminate waits, spinning, until every unit has closed its command channel. A case that stalled may have
         // left a unit that no longer takes commands (that is what the stall reports): then the runtime is dropped with its tasks.
         if self.stalled.is_none() && !self.wedged { let _g = self.rt.as_ref().unwrap().enter(); self.mgr.terminate(); }
@@ -546,7 +659,7 @@ impl World {
         let was_running = self.running[0];
         {
             let _g = self.rt.as_ref().unwrap().enter();
-            let file = config_file(&self.dir, config_text(self.bmp_port, self.http_port, self.variant, &self.desired, self.bgp_port, if self.two { Some(self.bmp2_port) } else { None }));
+            let file = config_file(&self.dir, config_text(self.bmp_port, self.http_port, self.variant, &self.desired, self.bgp_port, if self.two { Some(self.bmp2_port) } else { None }, self.bgp.as_ref().map(|b| (b.port, b.desired))));
             let (_src, mut config) = match Config::from_config_file(file, &mut self.mgr) { Ok(x) => x, Err(_) => panic!("config rejected") };
             let holder = if std::mem::take(&mut self.hold_next) { hold_script(self.mgr.verif_roto_compiled(), HOLD_MS) } else { None };
             self.mgr.spawn(&mut config);
@@ -601,6 +714,141 @@ impl World {
         self.barrier();
     }
 
+    // -------------------------------------------------------------- the BGP speakers of a case with a bgp-tcp-in unit
+    fn stall_ms(&self) -> u64 { if self.stalled.is_some() { 50 } else { STALL_MS } }
+
+    /// the bgp unit's gate has sent as many updates as the speakers' UPDATEs and ended sessions call for (the counter moves after
+    /// the update has been delivered, by DirectLink, into the RIB units)
+    fn bgp_settle(&mut self) {
+        let want = self.bgp.as_ref().unwrap().updates;
+        self.wait_metrics("bgp unit's update reached the gate", |t| metric_sum(t, "num_updates_total", &[("component", BGP_UNIT)]).unwrap_or(0) >= want);
+    }
+
+    /// BO k: TCP connection from 127.0.0.<30+k>, OPEN, (OPEN back, KEEPALIVE, KEEPALIVE back)
+    fn bgp_open(&mut self, k: u32) -> String {
+        let port = self.bgp.as_ref().unwrap().port;
+        let local = SocketAddr::from((Ipv4Addr::new(127, 0, 0, 30 + k as u8), 0));
+        let remote = SocketAddr::from((Ipv4Addr::LOCALHOST, port));
+        let rt = self.rt.as_ref().unwrap();
+        let t0 = Instant::now();
+        let stream = loop {
+            let r = rt.block_on(async {
+                let s = tokio::net::TcpSocket::new_v4()?;
+                s.bind(local)?;
+                s.connect(remote).await
+            });
+            match r {
+                Ok(s) => break s,
+                Err(e) => {
+                    if t0.elapsed() > Duration::from_millis(STALL_MS) { panic!("cannot connect to the bgp-tcp-in listener: {e}"); }
+                    std::thread::sleep(Duration::from_millis(2));
+                }
+            }
+        };
+        let stream = stream.into_std().unwrap();
+        stream.set_nonblocking(false).unwrap();
+        stream.set_nodelay(true).unwrap();
+        let ms = self.stall_ms();
+        let mut c = BgpConn { stream, buf: vec![], notified: false };
+        let _ = c.stream.write_all(&bgp_open(65100 + k, k));
+        let b = self.bgp.as_mut().unwrap();
+        b.accepted += 1;
+        let want = b.accepted;
+        let tok = match c.await_frame(1, ms) {
+            Err("closed") => "o:-".to_string(),
+            Err(_) => { if self.stalled.is_none() { self.stalled = Some(format!("bgp unit neither answers nor closes the connection of peer {k}")); } "o:?".into() }
+            Ok(body) if body.len() < 9 => "o:short".into(),
+            Ok(body) => {
+                // My AS (or the 4-octet AS capability when it says AS_TRANS), hold time
+                let mut asn = u16::from_be_bytes([body[1], body[2]]) as u32;
+                let hold = u16::from_be_bytes([body[3], body[4]]);
+                let params = &body[10..];
+                let mut i = 0;
+                while i + 2 <= params.len() {
+                    let (pt, pl) = (params[i], params[i + 1] as usize);
+                    let val = &params[i + 2..(i + 2 + pl).min(params.len())];
+                    if pt == 2 {
+                        let mut j = 0;
+                        while j + 2 <= val.len() {
+                            let (cc, cl) = (val[j], val[j + 1] as usize);
+                            if cc == 65 && cl == 4 && j + 6 <= val.len() { asn = u32::from_be_bytes([val[j + 2], val[j + 3], val[j + 4], val[j + 5]]); }
+                            j += 2 + cl;
+                        }
+                    }
+                    i += 2 + pl;
+                }
+                let a = BGP_ASNS.iter().position(|x| *x == asn).map(|x| x.to_string()).unwrap_or_else(|| format!("?{asn}"));
+                let _ = c.stream.write_all(&bgp_frame(4, &[]));
+                match c.await_frame(4, ms) {
+                    Ok(_) => { let t = format!("o:{a},{hold}"); self.bgp.as_mut().unwrap().conns.insert(k, c); t }
+                    Err(_) => format!("o:{a},{hold},not-established"),
+                }
+            }
+        };
+        self.wait_metrics("bgp connection accepted", |t| metric_sum(t, "bgp_tcp_in_connection_accepted_count_total", &[("component", BGP_UNIT)]) == Some(want));
+        tok
+    }
+
+    /// a BGP op on the connection of address k: `-` when this side has none; `!closed` when the unit has closed it meanwhile
+    fn bgp_gone(&mut self, k: u32) -> Option<String> {
+        let b = self.bgp.as_mut().unwrap();
+        match b.conns.get_mut(&k) {
+            None => Some("-".into()),
+            Some(c) => if c.closed() { b.conns.remove(&k); b.updates += 1; Some("!closed".into()) } else { None },
+        }
+    }
+
+    fn bgp_update(&mut self, k: u32, bytes: &[u8]) -> String {
+        if let Some(t) = self.bgp_gone(k) { return t; }
+        let b = self.bgp.as_mut().unwrap();
+        let _ = b.conns.get_mut(&k).unwrap().stream.write_all(bytes);
+        b.updates += 1;
+        self.bgp_settle();
+        "-".into()
+    }
+
+    fn bgp_close(&mut self, k: u32, notify: bool) -> String {
+        if let Some(t) = self.bgp_gone(k) { return t; }
+        let b = self.bgp.as_mut().unwrap();
+        let c = b.conns.remove(&k).unwrap();
+        if notify { let mut s = &c.stream; let _ = s.write_all(&bgp_frame(3, &[6, 2])); }
+        let _ = c.stream.shutdown(std::net::Shutdown::Both);
+        drop(c);
+        b.updates += 1;
+        self.bgp_settle();
+        "-".into()
+    }
+
+    /// after a reload: which connections has the unit closed? Waits for the ones whose entry (or my_asn) the reload changed - the
+    /// expectation only says how long to wait, the token says what was seen - then a little longer for any other
+    fn bgp_after_reload(&mut self) -> String {
+        let ms = self.stall_ms();
+        let b = self.bgp.as_mut().unwrap();
+        let (old, new) = (b.loaded, b.desired);
+        b.loaded = new;
+        let expect: Vec<u32> = b.conns.keys().copied().filter(|k| old.asn != new.asn || old.peers[*k as usize] != new.peers[*k as usize]).collect();
+        let mut closed: Vec<u32> = vec![];
+        let t0 = Instant::now();
+        let mut grace: Option<Instant> = None;
+        loop {
+            let ks: Vec<u32> = b.conns.keys().copied().collect();
+            for k in ks { if b.conns.get_mut(&k).unwrap().closed() { b.conns.remove(&k); closed.push(k); } }
+            if grace.is_none() && (expect.iter().all(|k| closed.contains(k)) || t0.elapsed() > Duration::from_millis(ms)) { grace = Some(Instant::now()); }
+            if let Some(g) = grace { if g.elapsed() > Duration::from_millis(15) { break; } }
+            std::thread::sleep(Duration::from_micros(500));
+        }
+        b.updates += closed.len() as u64;
+        closed.sort();
+        self.bgp_settle();
+        format!("x:{}", closed.iter().map(|k| k.to_string()).collect::<Vec<_>>().join(","))
+    }
+
+    fn bgp_metrics(&mut self) -> String {
+        let text = self.metrics();
+        let g = |name: &str| metric_sum(&text, name, &[("component", BGP_UNIT)]).map(|v| v.to_string()).unwrap_or_else(|| "?".into());
+        format!("n:{},{},{}", g("bgp_tcp_in_connection_accepted_count_total"), g("bgp_tcp_in_connection_lost_count_total"), g("bgp_tcp_in_disconnect_count_total"))
+    }
+
     fn query(&mut self, af: u32, p: u32) -> String { self.query_at("/prefixes/", "q", af, p) }
 
     fn query_at(&mut self, base: &str, tag: &str, af: u32, p: u32) -> String {
@@ -615,11 +863,26 @@ impl World {
         if st != 200 { return format!("{tag}:http-{st}"); }
         let Ok(v) = serde_json::from_str::<serde_json::Value>(&body) else { return format!("{tag}:bad-json") };
         let mut es: Vec<String> = vec![];
-        for r in v.get("data").and_then(|d| d.as_array()).cloned().unwrap_or_default() {
+        let rows = v.get("data").and_then(|d| d.as_array()).cloned().unwrap_or_default();
+        // entries of BGP sessions: the ingress info names the speaker's address; the sessions of one address are numbered in the
+        // order in which the RIB has shown their ingress ids (new ones of one answer: in ascending order)
+        if let Some(b) = self.bgp.as_mut() {
+            let mut fresh: Vec<(u32, u32)> = rows.iter().filter_map(|r| {
+                let id = r.get("ingress_id").and_then(|x| x.as_u64())? as u32;
+                let k = bgp_addr_of(r.get("ingress_info"))?;
+                Some((k, id))
+            }).collect();
+            fresh.sort();
+            for (k, id) in fresh { let l = b.seen.entry(k).or_default(); if !l.contains(&id) { l.push(id); } }
+        }
+        for r in rows {
             let id = r.get("ingress_id").and_then(|x| x.as_u64()).unwrap_or(u64::MAX);
             let st = match r.get("status").and_then(|x| x.as_str()).map(|x| x.to_ascii_lowercase()).as_deref() { Some("withdrawn") => "W", Some("active") => "A", _ => "?" };
             let a = r.get("attributes").map(first_hop_value).unwrap_or(9999);
-            let names = self.names_of(r.get("ingress_info"));
+            let mut names = self.names_of(r.get("ingress_info"));
+            if let (Some(b), Some(k)) = (self.bgp.as_ref(), bgp_addr_of(r.get("ingress_info"))) {
+                if let Some(c) = b.seen.get(&k).and_then(|l| l.iter().position(|x| *x as u64 == id)) { names.push(format!("b{k}c{c}")); }
+            }
             if names.is_empty() { es.push(format!("?{id}={st}{a}")); }
             for x in names { es.push(format!("{x}={st}{a}")); }
         }
@@ -648,11 +911,22 @@ impl World {
     }
 }
 
+/// the speaker address (127.0.0.<30+k> -> k) an ingress id of a BGP session stands for: no parent, remote address of a speaker
+fn bgp_addr_of(info: Option<&serde_json::Value>) -> Option<u32> {
+    let info = info?;
+    if info.get("parent_ingress").map(|x| !x.is_null()).unwrap_or(false) { return None; }
+    let addr = info.get("remote_addr").and_then(|x| x.as_str())?;
+    let last: u32 = addr.strip_prefix("127.0.0.")?.parse().ok()?;
+    if (30..35).contains(&last) { Some(last - 30) } else { None }
+}
+
+fn is_bgp_case(all: &[Vec<&str>]) -> bool { all.iter().any(|o| matches!(o[0], "BO" | "BA" | "BZ" | "BP" | "BS" | "BM")) }
+
 /// (the case keeps files, start-up script, start-up number of vRIBs, how many leading ops describe the start-up configuration,
 /// the case has a second ingress unit)
 fn startup_of(all: &[Vec<&str>]) -> (bool, u32, u32, usize, bool, bool) {
     let two = all.iter().any(|o| matches!(o[0], "J" | "JL"));
-    let files = two || all.iter().any(|o| matches!(o[0], "F" | "FH" | "W" | "Y" | "K"));
+    let files = two || is_bgp_case(all) || all.iter().any(|o| matches!(o[0], "F" | "FH" | "W" | "Y" | "K"));
     let (mut script, mut vribs, mut lead) = (0, 0, 0);
     let mut hold = false;
     for (i, o) in all.iter().enumerate() {
@@ -670,7 +944,8 @@ fn startup_of(all: &[Vec<&str>]) -> (bool, u32, u32, usize, bool, bool) {
 pub fn run_case(line: &str) -> String {
     let all = ops(line);
     let (files, startup, vribs, lead, two, hold) = startup_of(&all);
-    let mut w = World::start_with(files, startup, vribs, two, hold);
+    let bgp = is_bgp_case(&all);
+    let mut w = World::start_with(files, startup, vribs, two, hold, bgp);
     let mut out: Vec<String> = vec![];
     let mut ended = false;
     for (idx, op) in all.into_iter().enumerate() {
@@ -717,8 +992,17 @@ pub fn run_case(line: &str) -> String {
             }
             "L" | "H" => {
                 w.reload(op[0] == "L", op.get(1).and_then(|x| x.parse().ok()));
-                out.push("-".into());
+                out.push(if w.bgp.is_some() { w.bgp_after_reload() } else { "-".into() });
             }
+            "BO" => {
+                let k = n(1).min(4);
+                out.push(if w.bgp.as_ref().unwrap().conns.contains_key(&k) { "-".into() } else { w.bgp_open(k) });
+            }
+            "BA" => out.push(w.bgp_update(n(1).min(4), &update_bytes(0, n(2), op[3], 0, op[4]))),
+            "BZ" => out.push(w.bgp_close(n(1).min(4), op.get(2).map(|x| *x == "1").unwrap_or(false))),
+            "BP" => { w.bgp.as_mut().unwrap().desired.peers[n(1).min(4) as usize] = n(2).min(2) as usize; out.push("-".into()); }
+            "BS" => { w.bgp.as_mut().unwrap().desired.asn = n(1).min(1) as usize; out.push("-".into()); }
+            "BM" => out.push(w.bgp_metrics()),
             "V" => {
                 let k = n(1);
                 out.push(match w.conns.get(&k) {
@@ -830,7 +1114,8 @@ pub fn special(name: &str, args: &[String]) -> bool {
         // debugging aid: vh e2e-raw '<case>' <path> : run the case, then print one HTTP resource raw
         let all = ops(&args[0]);
         let (files, startup, vribs, _lead, two, hold) = startup_of(&all);
-        let mut w = World::start_with(files, startup, vribs, two, hold);
+        let bgp = is_bgp_case(&all);
+        let mut w = World::start_with(files, startup, vribs, two, hold, bgp);
         for op in all {
             let n = |i: usize| op[i].parse::<u32>().unwrap();
             match op[0] {
@@ -843,7 +1128,13 @@ pub fn special(name: &str, args: &[String]) -> bool {
                 "U" => { w.send(n(1), &enc::mk_peer_up_notification_msg(&pph(n(2) as usize), "10.0.0.1".parse().unwrap(), 11019, 4567, 111, 222, 0, 0, vec![], n(3) == 1)); }
                 "R" => { w.send(n(1), &enc::mk_raw_route_monitoring_msg(&pph(n(2) as usize), update_bytes(n(3), n(4), op[5], n(6), op[7]))); }
                 "X" => w.disconnect(n(1)),
-                "L" | "H" => w.reload(op[0] == "L", op.get(1).and_then(|x| x.parse().ok())),
+                "L" | "H" => { w.reload(op[0] == "L", op.get(1).and_then(|x| x.parse().ok())); if w.bgp.is_some() { println!("{}", w.bgp_after_reload()); } }
+                "BO" => println!("{}", w.bgp_open(n(1))),
+                "BA" => println!("{}", w.bgp_update(n(1), &update_bytes(0, n(2), op[3], 0, op[4]))),
+                "BZ" => println!("{}", w.bgp_close(n(1), op.get(2).map(|x| *x == "1").unwrap_or(false))),
+                "BP" => w.bgp.as_mut().unwrap().desired.peers[n(1) as usize] = n(2) as usize,
+                "BS" => w.bgp.as_mut().unwrap().desired.asn = n(1) as usize,
+                "BM" => println!("{}", w.bgp_metrics()),
                 _ => {}
             }
         }
